@@ -31,6 +31,13 @@ def jobs(tier, seed):
                   "src/lib_stable/reed-solomon_gf_2_m/galois_field_codes_utils/algebra_2_8.c"]
     api_fns = ["of_build_repair_symbol", "of_decode_with_new_symbol", "of_set_available_symbols", "of_finish_decoding", "of_is_decoding_complete",
                "of_get_source_symbols_tab", "of_set_fec_parameters", "of_set_callback_functions", "of_get_control_parameter", "of_set_control_parameter"]
+    LD = ["src/lib_common/of_openfec_api.c", MEM, "src/lib_stable/ldpc_staircase/of_ldpc_staircase_api.c", "src/lib_common/of_rand.c"]
+    js.append(Job("ldpc.set_params.reject_direction", "ldpc_set_fec_parameters", "c09_ldpc_set_params.c", ["of_set_fec_parameters", "of_ldpc_staircase_set_fec_parameters", "of_ldpc_staircase_get_control_parameter"],
+                  repo_sources=LD, defines={"OFV_T": 1}, replace_calls=[("of_create_pchck_matrix_rfc5170_compliant", "stub_create_pchk")], unwind=3, object_bits=10,
+                  timeout=600, status="proved", native=False))
+    js.append(Job("ldpc.construct.rejects_large_N1", "ldpc_set_fec_parameters", "c09_ldpc_set_params.c", ["of_create_pchck_matrix_rfc5170_compliant"],
+                  repo_sources=LD + ["src/lib_stable/ldpc_staircase/of_ldpc_staircase_pchk.c"], defines={"OFV_T": 2}, unwind=8, object_bits=10, timeout=600, status="bounded", native=False,
+                  bound="six constant (n-k, N1, k) points with N1 > n-k"))
     calls = ["build_repair_symbol", "decode_with_new_symbol", "set_available_symbols", "finish_decoding", "is_decoding_complete",
              "get_source_symbols_tab", "set_fec_parameters", "set_callback_functions", "get_control_parameter", "set_control_parameter"]
     bads = {0: ("null_session", range(10)), 1: ("wrong_role", range(0, 6)), 2: ("bad_esi", (0, 1)), 3: ("null_argument", (1, 2, 6))}
